@@ -40,6 +40,7 @@ class Worker:
         self.setup_cases = []     # driver commands re-applied after rebuilds
         self.p = None
         self.restarts = 0
+        self.stray = []   # non-protocol lines seen on the worker's stdout
         self.start()
 
     def start(self):
@@ -106,7 +107,16 @@ class Worker:
                 raise WorkerDied("exit", rc)
             self.buf += chunk
         line, self.buf = self.buf.split(b"\n", 1)
-        return json.loads(line.decode("utf-8", "replace"))
+        # the machine itself may print to the real stdout (loader warnings go
+        # through println!): anything that is not a JSON object is skipped
+        try:
+            d = json.loads(line.decode("utf-8", "replace"))
+            if isinstance(d, dict):
+                return d
+        except ValueError:
+            pass
+        self.stray.append(line[:200])
+        return self._read(max(0.1, deadline - time.time()))
 
     def _rpc(self, req, timeout):
         try:
